@@ -43,13 +43,13 @@ CLAIMS = {
     'C10': dict(
         category='exploration', technique='deterministic simulation: seeded access/save/reopen histories on an in-memory disk over given files (committed corpus, generated maps, container variants from an independent codec, sample map), judged by an independent container decoder plus the reader on fresh objects',
         engine='history-machine+E2-simfs',
-        text='Given files (a committed corpus of 160 maps built once from a hand-packed minimal map, freshly generated maps, the sample map under tests/; each optionally re-packed by an independent container codec with LZMA-compressed lumps and game lumps, L4D2 header order, versions 19/20/21) go through seeded histories of view accesses (subsets and orders of the 21 views, biased to 1-3), indirect helpers, save, save-as, reopen and collect steps. After every save the independent decoder compares version, revision, lump versions, compression flags and game-lump table, byte equality of every lump without a structured view (all lumps when nothing was accessed), emptied lumps, and the library reader on fresh objects compares every structured view; a further save of the result must change nothing.',
-        note='Parsed content is compared through the library reader (C11 decides reader/writer inversion); INFRA/Chaos/Vitamin containers not generated.', ref='5/C10'),
+        text='Given files (a committed corpus of 220 maps built once from hand-packed minimal maps in the v19/20/21, INFRA v22, Chaos v25 and VitaminSource v43 layouts, freshly generated maps, the sample map under tests/; each optionally re-packed by an independent container codec with LZMA-compressed lumps and game lumps and L4D2 header order; 1 input in 10 has one deliberately unparseable lump) go through seeded histories of view accesses (subsets and orders of the 21 views, biased to 1-3), indirect helpers, save, save-as, reopen and collect steps. A view access that raises on an unparseable lump is caught like a tool would; the damaged lump must then be byte-identical after the save. After every save the independent decoder compares version, revision, lump versions, compression flags and game-lump table, byte equality of every lump without a structured view (all lumps when nothing was accessed), emptied lumps, and the library reader on fresh objects compares every structured view; a further save of the result must change nothing.',
+        note='Parsed content (including the output separator of the entity lump) is compared exactly through the library reader (C11 decides reader/writer inversion); displacement and physics-collision payloads are opaque bytes.', ref='5/C10'),
     'C11': dict(
         category='exploration', technique='deterministic simulation: seeded assignment histories (views looked at first, value groups assigned, save, reopen) on an in-memory disk; observation of assigned objects as reference model; overflow injection',
         engine='history-machine+E2-simfs',
-        text='On a hand-packed minimal map (v19/20/21, optional L4D2 order and LZMA lumps) a seeded subset of independent views is accessed first, then seeded well-formed values are assigned to a seeded subset of 16 value groups (texinfo/texdata/names, planes, vertexes+surfedges with reversed edges, primitives, faces+original+HDR faces sharing planes/texinfo/edges, brushes+sides with overlapping side ranges, nodes+leafs with cross references, water info, run-length coded visibility incl. >255-byte zero runs, cubemaps, overlays, entity lump with either output separator, brush models with physics blocks, static props of every non-Chaos format version, detail props of all three kinds, pakfile); after save and reopen every view must equal the observation of what was assigned. Overflow runs push one field outside its on-disk range: the only accepted outcomes are an exception with the file unchanged or an exact round trip.',
-        note='float32-representable numbers; compiled-map conventions listed in the evidence assumptions; Chaos/INFRA/Vitamin layouts not generated.', ref='5/C11'),
+        text='On a hand-packed minimal map (v19/20/21, INFRA v22, Chaos v25 or VitaminSource v43 layout; optional L4D2 order and LZMA lumps) a seeded subset of independent views is accessed first, then seeded well-formed values are assigned to a seeded subset of 16 value groups (texinfo/texdata/names, planes, vertexes+surfedges with reversed edges, primitives, faces+original+HDR faces sharing planes/texinfo/edges, brushes+sides with overlapping side ranges, nodes+leafs with cross references, water info, run-length coded visibility incl. >255-byte zero runs, cubemaps, overlays, entity lump with either output separator, brush models with physics blocks, static props of every format version the layout allows, detail props of all three kinds, pakfile); after save and reopen every view must equal the observation of what was assigned. Overflow runs push one field outside its on-disk range: the only accepted outcomes are an exception with the file unchanged or an exact round trip.',
+        note='float32-representable numbers compared exactly; compiled-map conventions listed in the evidence assumptions.', ref='5/C11'),
     'C17': dict(
         category='exploration', technique='deterministic simulation: seeded collapse histories over shared cached templates, reference rotation/naming models as oracle, bounded liveness of collapse_all on recursive graphs measured on a deterministic step clock (collapse_one calls)',
         engine='history-machine+stepclock',
